@@ -54,6 +54,13 @@ TRUSTED = ['hand-written model coq/Model/Metadata.v tied to biom/table.py (add_m
            "int() / float() on field texts are oracles of the model (their graph on the case's texts is sent along)",
            'Python str.strip character class (validated in C03), str.replace, str.split',
            'extraction (ExtrOcamlBasic only) + ocaml/driver_tail.ml, cross-checked against vm_compute on a sample']
+from . import regen_dyn as _regen_dyn
+# py2v_dyn (state mode): regenerate coq/Gen/MetadataGen.v from Table.add_metadata / Table.del_metadata first
+regenerate = _regen_dyn.hook(TRUSTED, ['metadata'], tie=(
+    'tied to the hand-written model coq/Model/Metadata.v (add_metadata, del_metadata) by the *_is_source theorems at the '
+    'end of coq/Props/C18.v (coq/Proofs/GenBridgeMetadataProofs.v); trusted: the translator tools/py2v_dyn/statemode.py, its '
+    'signature file tools/py2v_dyn/sigs/metadata.json (Table.metadata / ids / exists / index / _index / _cast_metadata pinned by '
+    'the hash of their AST) and the tb_* vocabulary coq/Gen/MetaPrelude.v'))
 ASSUMPTIONS = ['mappings are Python dicts (unique ids, unique keys)',
                'a mapping does not hand add_metadata the live metadata objects of the very axis it updates',
                'metadata values are only moved, never inspected, by add/del',
